@@ -25,6 +25,8 @@ pub struct GenCfg {
     pub garbage_weight: u32,
     /// weight of the two abort actions among shell actions
     pub abort_weight: u32,
+    /// weight of "drop an outstanding request" among shell actions
+    pub drop_weight: u32,
     /// per cent of the universes whose first program is put behind a pending first part:
     /// `then(task awaiting a request, abortable(program))` - the shape in which a command can be
     /// aborted before it has been started
@@ -33,10 +35,10 @@ pub struct GenCfg {
 
 impl GenCfg {
     pub fn standard() -> Self {
-        GenCfg { depth: 3, max_acts: 30, abortable: true, task_aborts: true, retaining: true, legacy: false, again_weight: 2, start_weight: 1, wrap: false, scale: true, garbage_weight: 0, abort_weight: 1, behind_then: 4 }
+        GenCfg { depth: 3, max_acts: 30, abortable: true, task_aborts: true, retaining: true, legacy: false, again_weight: 2, start_weight: 1, wrap: false, scale: true, garbage_weight: 0, abort_weight: 1, drop_weight: 3, behind_then: 4 }
     }
     pub fn legacy() -> Self {
-        GenCfg { depth: 3, max_acts: 30, abortable: false, task_aborts: false, retaining: false, legacy: true, again_weight: 2, start_weight: 1, wrap: false, scale: true, garbage_weight: 0, abort_weight: 1, behind_then: 4 }
+        GenCfg { depth: 3, max_acts: 30, abortable: false, task_aborts: false, retaining: false, legacy: true, again_weight: 2, start_weight: 1, wrap: false, scale: true, garbage_weight: 0, abort_weight: 1, drop_weight: 3, behind_then: 4 }
     }
 }
 
@@ -126,7 +128,7 @@ pub fn act(cfg: GenCfg) -> BoxedStrategy<Act> {
     let drain_len = if cfg.scale { prop_oneof![20 => 2u16..40, 1 => 500u16..1300].boxed() } else { (2u16..40).boxed() };
     let mut v: Vec<(u32, BoxedStrategy<Act>)> = vec![
         (10, any::<u16>().prop_map(Act::Resolve).boxed()),
-        (3, any::<u16>().prop_map(Act::Drop).boxed()),
+        (cfg.drop_weight.max(1), any::<u16>().prop_map(Act::Drop).boxed()),
         (cfg.abort_weight.max(1), any::<u16>().prop_map(Act::AbortCmd).boxed()),
         (cfg.abort_weight.max(1), any::<u16>().prop_map(Act::AbortTask).boxed()),
         (1, Just(Act::Noop).boxed()),
